@@ -44,7 +44,7 @@ fn spelled(n: &str) -> Piece {
     let neg = n.starts_with('-');
     let d = n.trim_start_matches('-');
     let s = if neg { "-" } else { "" };
-    Piece::Slot("numeral spelling", vec![n.as_bytes().to_vec(), format!("{s}0{d}").into_bytes(), format!("{s}0000000{d}").into_bytes(), format!("{s}00000000{d}").into_bytes()])
+    Piece::Slot("numeral spelling", vec![n.as_bytes().to_vec(), format!("{s}0{d}").into_bytes(), format!("{s}0000000{d}").into_bytes(), format!("{s}00000000{d}").into_bytes(), format!("{s}{}{d}", "0".repeat(39)).into_bytes(), format!("{s}{}{d}", "0".repeat(70)).into_bytes()])
 }
 fn terminator() -> Piece {
     Piece::Slot("terminator spelling", alts(&[b"0", b"-0", b"00", b"-000000000"]))
@@ -109,7 +109,7 @@ pub fn formula_template(kind: &str, header: bool, clauses: &[(Option<String>, Ve
 pub fn log_template(status: Option<bool>, known: bool, assignment: &[String], split: &[usize], ignore_unknown: bool) -> (Vec<Piece>, Value) {
     // `split`: number of literals on each value line (the terminating 0 goes on the last line)
     let mut t = Vec::new();
-    let other: Vec<&[u8]> = if ignore_unknown { vec![b"", b"c note\n", b"c \n", b"\n", b"c\n", b"hello\n", b" v 1\n", b"c a\nc b\n", b"x\r\n"] } else { vec![b"", b"c note\n", b"c \n", b"c a\nc b\n", b"c x\r\n"] };
+    let other: Vec<&[u8]> = if ignore_unknown { vec![b"", b"c note\n", b"c \n", b"\n", b"c\n", b"hello\n", b" v 1\n", b"c a\nc b\n", b"x\r\n", b"c x\n v 7 0\n", b"c\n s UNSATISFIABLE\n", b"\n\tv 9 0\n"] } else { vec![b"", b"c note\n", b"c \n", b"c a\nc b\n", b"c x\r\n"] };
     let inter = || Piece::Slot("between lines", alts(&other));
     t.push(inter());
     if known {
